@@ -488,7 +488,7 @@ def g_miscs(s, allow_text=False):
     return [g_misc(s, allow_text) for _ in range(s.rng(1, 2))]
 
 
-TAG_BODIES = ["", "c++", "a+b", "+", "a", "b", "tag", "x-y", "é", "\U0001F600", "a#b", "1", "a:b", "<a>", "wip"]
+TAG_BODIES = ["e\u0301", "\u1100\u1161", "\u0915\u093c", "A\u030a", "", "c++", "a+b", "+", "a", "b", "tag", "x-y", "é", "\U0001F600", "a#b", "1", "a:b", "<a>", "wip"]
 
 
 def g_tagname(s):
